@@ -200,9 +200,15 @@ Definition holds (c : case) : Z :=
   | CM y yh eps o => cm_holds y yh eps o
   | CL P cf eps fit yf yc o => cl_holds P cf eps fit yf yc o
   end.
+(* conjunct 20 (judged last): "equals its textbook formula to within rounding" — the implementation's value is
+   within tolerance of the formula of the *_def theorems evaluated on doubles (the same comparison as `agree`,
+   reported as a property violation with a failing input when no other law breaks) *)
+Definition holds20 (c : case) : Z :=
+  let h := holds c in
+  if (h =? 0)%Z then (if forallb cmp_ok (comparisons c) then 0%Z else 20%Z) else h.
 Definition judge (c : case) : Z :=
   if negb (in_dom c) then 600%Z
-  else (100 * (if forallb cmp_ok (comparisons c) then 0 else 1) + holds c)%Z.
+  else (100 * (if forallb cmp_ok (comparisons c) then 0 else 1) + holds20 c)%Z.
 (* judge + 1000 * (number of bit-exact comparisons) + 1000000 * (number of comparisons): the harness splits it *)
 Definition judgex (c : case) : Z :=
   if negb (in_dom c) then 600%Z
